@@ -64,12 +64,14 @@ IndexIn(s, e) == CHOOSE i \in 1..Len(s) : s[i] = e
 \* Remove the elements of set X from sequence s, keeping the order of the rest.
 SeqMinus(s, X) == SelectSeq(s, LAMBDA e : e \notin X)
 
-\* s is a permutation-insensitive merge: t consists of the elements of s (in their
-\* order) plus exactly the elements of sequence `added`, at arbitrary positions.
-IsMergeOf(t, s, addedSet) ==
+\* t holds exactly the elements of s plus the elements of addedSet (nothing lost, nothing twice).
+SameElementsPlus(t, s, addedSet) ==
     /\ Len(t) = Len(s) + Cardinality(addedSet)
     /\ SeqSet(t) = SeqSet(s) \cup addedSet
-    /\ SeqMinus(t, addedSet) = s
+
+\* The elements of `keep` appear in t in the same relative order as in s.
+SameOrderOf(t, s, keep) ==
+    SelectSeq(t, LAMBDA e : e \in keep) = SelectSeq(s, LAMBDA e : e \in keep)
 
 \* Lexicographic order on message ids <<hi, lo>>.
 MsgLess(a, b) == a[1] < b[1] \/ (a[1] = b[1] /\ a[2] < b[2])
@@ -170,7 +172,10 @@ PullGuards(s, max, out, queueAfter, t) ==
          G("C03", NoDup(msgs)),
          G("C03", SeqSet(msgs) \subseteq SeqSet(s.queue)),
          G("C03", LeasedMsgs(s) \cap SeqSet(msgs) = {}),
-         G("C01", queueAfter = SeqMinus(s.queue, SeqSet(msgs))),
+         \* the rest of the backlog stays: nothing lost, nothing twice (where a re-queued
+         \* message sits is not part of the contract; the order of never-delivered ones is)
+         G("C01", SameElementsPlus(queueAfter, SeqMinus(s.queue, SeqSet(msgs)), {})),
+         G("C08", SameOrderOf(queueAfter, s.queue, fresh \ SeqSet(msgs))),
          G("C03", NoDup(acks) /\ SeqSet(acks) \cap s.used = {}),
          \* first deliveries happen in queue order, none skipped
          G("C08", LET fo == SelectSeq(msgs, LAMBDA m : m \in fresh)
@@ -370,7 +375,8 @@ SubModify_G(si, mods, queueAfter) ==
     IF si \notin DOMAIN S THEN { G("BIND", FALSE) } ELSE
     IF S[si].st # "live" THEN {} ELSE
     ModGuards(S[si], mods) \cup
-    { G("C05", IsMergeOf(queueAfter, S[si].queue, NackedBy(S[si], mods))) }
+    { G("C05", SameElementsPlus(queueAfter, S[si].queue, NackedBy(S[si], mods))),
+      G("C08", SameOrderOf(queueAfter, S[si].queue, SeqSet(S[si].queue) \ S[si].seen)) }
 SubModify_A(si, mods, queueAfter) ==
     /\ S' = IF S[si].st = "live"
             THEN [S EXCEPT ![si] = [SubAfterMods(@, mods) EXCEPT !.queue = queueAfter]]
@@ -383,7 +389,8 @@ ExpiredBy(s, acks) == {s.lease[a].m : a \in SeqSet(acks) \cap DOMAIN s.lease}
 SubExpire_G(si, acks, queueAfter, judgeLate, t) ==
     IF si \notin DOMAIN S \/ S[si].st # "live" THEN { G("BIND", FALSE) } ELSE
     ExpireGuards(S[si], acks, t, judgeLate) \cup
-    { G("C01", IsMergeOf(queueAfter, S[si].queue, ExpiredBy(S[si], acks))) }
+    { G("C01", SameElementsPlus(queueAfter, S[si].queue, ExpiredBy(S[si], acks))),
+      G("C08", SameOrderOf(queueAfter, S[si].queue, SeqSet(S[si].queue) \ S[si].seen)) }
 SubExpire_A(si, acks, queueAfter) ==
     /\ S' = [S EXCEPT ![si] = [SubAfterExpire(@, acks) EXCEPT !.queue = queueAfter]]
     /\ UNCHANGED <<tmap, smap, T, torder, sorder, reg, pubs>>
